@@ -230,7 +230,7 @@ func (rule *overlappingFieldsCanBeMergedRule) collectConflictsBetweenFieldsAndFr
 	// (E) Then collect any conflicts between the provided collection of fields
 	// and any fragment names found in the given fragment.
 	for _, fragmentName2 := range fieldsInfo2.fragmentNames {
-		conflicts = rule.collectConflictsBetweenFieldsAndFragment(conflicts, areMutuallyExclusive, fieldsInfo2, fragmentName2)
+		conflicts = rule.collectConflictsBetweenFieldsAndFragment(conflicts, areMutuallyExclusive, fieldsInfo, fragmentName2)
 	}
 
 	return conflicts
